@@ -243,6 +243,8 @@ class NDNApp:
                              need_raw_packet: bool = False
                              ) -> Coroutine[Any, None, tuple[FormalName, MetaInfo, BinaryStr | None]]:
         final_name = Name.normalize(final_name)
+        # The pending entry outlives this call: keep copies, not views into buffers the caller may re-use
+        final_name = [bytes(c) for c in final_name]
         future = aio.get_running_loop().create_future()
         if Component.get_type(final_name[-1]) == Component.TYPE_IMPLICIT_SHA256:
             node_name = final_name[:-1]
